@@ -13,8 +13,8 @@
 //              got and reads the payload; closing barrier; the main thread evaluates
 //                 constructions == 1, all addresses equal (and equal to a later instance()),
 //                 every thread saw a completely constructed object.
-//   mthread    case = BATCH managed-thread lifetimes, function kind = idx % 3
-//              (blocking / empty / short), perturbation level = (idx / 3) % 3.
+//   mthread    case = BATCH managed-thread lifetimes, lifetime kind = idx % 5
+//              (blocking / empty / short / observed by a second thread / detached while running), perturbation level = (idx / 5) % 3.
 //              blocking: function sets `started`, waits for `release`, sets `finished`; the
 //              observer waits for `started` (it has OBSERVED that the function runs), samples
 //              isActive() K times -> all must be true; sets `release`, join() -> isActive()
@@ -400,10 +400,10 @@ void mthreadCase(const vh::Args& a, vh::Out& out, vh::Progress& prog, uint64_t i
 {
    using celma::common::ManagedThread;
    vh::Rng r(vh::mix(a.seed, vh::mix(vh::hash_str(a.mode), idx)));
-   const int kind = (int)(idx % 3);
-   const int level = (int)((idx / 3) % 3);
+   const int kind = (int)(idx % 5);
+   const int level = (int)((idx / 5) % 3);
    const unsigned K = (unsigned)a.getu("samples", 8);
-   static const char* const kinds[3] = { "blocking", "empty", "short" };
+   static const char* const kinds[5] = { "blocking", "empty", "short", "observed-by-other-thread", "detached-while-running" };
    tctx.arm(r.next(), level);
    char d[160];
    for (unsigned l = 0; l < lifetimes; ++l)
@@ -442,6 +442,70 @@ void mthreadCase(const vh::Args& a, vh::Out& out, vh::Progress& prog, uint64_t i
          if (afterJoin)
             out.viol("mthread|active-after-join", std::string(d) + ": isActive() returned true after the function returned and join()");
          if (!sh.finished.load()) out.viol("mthread|harness", std::string(d) + ": join() returned before the function finished");
+      }
+      else if (kind == 3)
+      {
+         // a second thread knows where the object is being constructed and queries it as soon as it has seen the function
+         // running - possibly before the constructor has returned (hook delay behind the thread start)
+         alignas(ManagedThread) static unsigned char storage[sizeof(ManagedThread)];
+         ManagedThread* obj = reinterpret_cast<ManagedThread*>(storage);
+         std::atomic<unsigned> inactive{ 0 };
+         std::atomic<int> obsDone{ 0 }, ctorDone{ 0 }, duringCtor{ 0 };
+         std::thread observer([&]() {
+            waitFlag(sh.started);
+            for (unsigned k = 0; k < K; ++k)
+            {
+               if (!ctorDone.load(std::memory_order_acquire)) duringCtor.fetch_add(1, std::memory_order_relaxed);
+               if (!obj->isActive()) inactive.fetch_add(1, std::memory_order_relaxed);
+               if (k == 2) sched_yield();
+               else cpuRelax();
+            }
+            obsDone.store(1, std::memory_order_release);
+         });
+         new (storage) ManagedThread(blockingFunc, &sh);
+         ctorDone.store(1, std::memory_order_release);
+         waitFlag(obsDone);
+         out.stat("mthread_active_samples", K);
+         if (duringCtor.load()) out.stat("mthread_samples_before_constructor_returned", duringCtor.load());
+         sh.release.store(1, std::memory_order_release);
+         obj->join();
+         const bool afterJoin = obj->isActive();
+         observer.join();
+         obj->~ManagedThread();
+         if (inactive.load())
+            out.viol("mthread|inactive-while-running", std::string(d) + ": isActive() returned false " + std::to_string(inactive.load()) + " of " +
+                     std::to_string(K) + " times to a second thread that had seen the thread function running (" + std::to_string(duringCtor.load()) +
+                     " of the queries before the constructor returned)");
+         if (afterJoin)
+            out.viol("mthread|active-after-join", std::string(d) + ": isActive() returned true after the function returned and join()");
+      }
+      else if (kind == 4)
+      {
+         // the owner detaches the thread while the function runs: it is still running, so still active
+         unsigned inactive = 0;
+         bool stillActive = true;
+         {
+            ManagedThread mt(blockingFunc, &sh);
+            waitFlag(sh.started);
+            if (!mt.isActive()) ++inactive;
+            mt.detach();
+            for (unsigned k = 0; k < K; ++k)
+            {
+               if (!mt.isActive()) ++inactive;
+               if (k == 1) sched_yield();
+               else cpuRelax();
+            }
+            out.stat("mthread_active_samples", K + 1);
+            out.stat("mthread_samples_after_detach", K);
+            sh.release.store(1, std::memory_order_release);
+            waitFlag(sh.finished);
+            // the thread clears the flag after the function returned; the object must outlive that store
+            for (unsigned w = 0; w < 200000 && (stillActive = mt.isActive()); ++w) { if (w < 1000) cpuRelax(); else sleepNs(10000); }
+         }
+         if (inactive)
+            out.viol("mthread|inactive-while-running", std::string(d) + ": isActive() returned false " + std::to_string(inactive) + " of " +
+                     std::to_string(K + 1) + " times while the function of the (detached) thread was known to run");
+         if (stillActive) out.stat("mthread_unjudged_still_active_2s_after_the_function_returned");
       }
       else
       {
